@@ -12,7 +12,7 @@ PROP = "C07"
 def run(ctx):
     tot_s = tot_t = 0
     bounds = []
-    quick_plan = [(n, 1, 0) for n in ["T", "T,T'", "T+fetch", "T;purge@B", "T,T';purge@B", "T;purge@A", "T-to-holder", "T(d:A>B),T(e:B>A)", "T(d),T(e);purge(e)@A", "T+fetch;purge@A", "T(d),T(e);purge(e)@A siblings", "T;store-refused@B"]]
+    quick_plan = [(n, 1, 0) for n in ["T", "T,T'", "T+fetch", "T;purge@B", "T,T';purge@B", "T;purge@A", "T-to-holder", "T(d:A>B),T(e:B>A)", "T(d),T(e);purge(e)@A", "T+fetch;purge@A", "T(d),T(e);purge(e)@A siblings", "T;store-refused@B"]] + [("T", 1, 1), ("T;purge@B", 0, 1)]  # the last two: a resend timer firing while frames are still in flight
     thorough_plan = (
         [(n, 2, 0) for n in ["T", "T,T'", "T+fetch", "T-to-holder", "T(d:A>B),T(e:B>A)"]]
         + [(n, 2, 1) for n in ["T;purge@B", "T;purge@A", "T;store-refused@B"]]
